@@ -173,6 +173,9 @@ pub struct Scenario {
     /// per-link latency overrides (from, to, rounds)
     #[serde(default)]
     pub link_lat: Vec<(Addr, Addr, i32)>,
+    /// (node, round): that node skips its tick in that round
+    #[serde(default)]
+    pub scripted_stalls: Vec<(usize, i32)>,
 }
 
 impl Scenario {
@@ -203,6 +206,7 @@ impl Scenario {
             max_points: u32::MAX,
             inject: Vec::new(),
             link_lat: Vec::new(),
+            scripted_stalls: Vec::new(),
         }
     }
 
